@@ -362,7 +362,7 @@ S_SITES = ["top", "block", "if_accept", "if_reject", "else_if", "loop_body", "co
            "for_body", "for_update", "while_body", "switch_case", "switch_default",
            "switch_multi", "if_false", "else_of_true", "if_const_expr_false", "while_false",
            "else_if_chain_130", "nested_for_6", "else_then_if", "guard_else_break",
-           "else_block_then_loop"]
+           "else_block_then_loop", "switch_after_default", "switch_default_middle"]
 E_SITES = ["let_init", "var_init", "if_cond", "while_cond", "break_if", "for_init", "for_cond",
            "switch_sel", "call_arg", "return_expr", "nested_expr"]
 
@@ -391,6 +391,10 @@ def scaffold(site, E, S_, n):
         # one source brace level, 130 IR nesting levels (each `else if` nests in the reject block)
         arms = " else ".join("if (acc < %d.5) { acc = acc + 1.0; }" % -(k + 2) for k in range(130))
         return "%s else { %s }" % (arms, S_)
+    if site == "switch_after_default":
+        return "switch (i) { default: { acc = acc + 1.0; } case 5: { %s } }" % S_
+    if site == "switch_default_middle":
+        return "switch (i) { case 1: { } default: { } case 7, 8: { %s } case 9: { } }" % S_
     if site == "else_then_if":
         # the statement sits in an else block BEFORE an if that ends the block
         return "if (acc < -1.0) { } else { %s if (acc > 5.0) { acc = acc + 1.0; } }" % S_
